@@ -5,7 +5,7 @@
 From Coq Require Import List NArith Bool String Lia.
 Import ListNotations.
 From Indi Require Import Base.Sx Msg.Equality Msg.RegOk Msg.Codec Router.Model Router.Props Driver.Model
-     Client.Model Client.Props System.Model System.Converge System.Ops.
+     Client.Model Client.Props Client.Norm System.Model System.Converge System.Ops.
 
 Definition is_blob_msg (m : msg) : bool := str_eqb (mk m) (s2l "setBLOBVector").
 
@@ -198,7 +198,8 @@ Theorem driver_operation_is_delivered s c dn e d o :
     cl_mirror c' = feed (cl_mirror c) (delivered_stream (pubs (snd (step d o)))) /\
     cl_in_ctl c' = [] /\ cl_in_blob c' = [] /\
     find_dev (sstep s (SDrv e o)) e = Some (fst (step d o)) /\
-    sy_r (sstep s (SDrv e o)) = sy_r s.
+    sy_r (sstep s (SDrv e o)) = sy_r s /\
+    cl_net c' = cl_net c /\ cl_ctl c' = cl_ctl c /\ cl_blob c' = cl_blob c.
 Proof.
   intros O I1 I2 Hk Fd Hn He1 He2 Hab. cbn [sstep]. rewrite Fd. destruct (step d o) as [d' tr] eqn:Es. cbn [fst snd] in *.
   change (publishes tr) with (pubs tr).
@@ -219,10 +220,54 @@ Proof.
     change (S (pred FUEL)) with FUEL in R; rewrite R.
   - eexists. split; [reflexivity|]. cbn [cl_mirror with_mirror cl_in_ctl cl_in_blob with_inboxes sy_r].
     rewrite Im, Ic, Ib. unfold delivered_stream. rewrite feed_app.
-    split; [reflexivity|]. split; [reflexivity|]. split; [reflexivity|]. split; [|exact Sr].
-    unfold find_dev. cbn [sy_devs]. rewrite Sd. exact Fd0.
+    split; [reflexivity|]. split; [reflexivity|]. split; [reflexivity|]. split; [|split; [exact Sr|]].
+    + unfold find_dev. cbn [sy_devs]. rewrite Sd. exact Fd0.
+    + cbn [cl_net cl_ctl cl_blob with_mirror with_inboxes]. auto.
   - exists (enq_all c (pubs tr)). split; [exact Cls1|]. rewrite Im. rewrite Ic in E1. rewrite Ib in E2.
     unfold delivered_stream. rewrite E1, E2. cbn [app feed fold_left].
-    split; [reflexivity|]. split; [rewrite Ic; exact E1|]. split; [rewrite Ib; exact E2|]. split; [|exact Sr].
+    split; [reflexivity|]. split; [rewrite Ic; exact E1|]. split; [rewrite Ib; exact E2|]. split; [|split; [exact Sr|auto]].
     unfold find_dev. rewrite Sd. exact Fd0.
+Qed.
+
+(* ---------- the connected network client stays in sync (operations that publish no BLOB update) ---------- *)
+(* the client's mirror is the normalisation (what the wire does to empty texts) of a mirror in sync with the device *)
+Definition net_synced (mi : mirror) (d : dev) : Prop :=
+  exists mi0, synced mi0 d /\ mi = nm mi0 /\ dget cd_name (d_name d) mi0 <> None.
+
+Lemma filter_all {A} (p : A -> bool) l : Forall (fun x => p x = true) l -> filter p l = l.
+Proof. induction 1 as [|x l Hx _ IH]; cbn [filter]; [reflexivity|]. rewrite Hx, IH. reflexivity. Qed.
+Lemma filter_none {A} (p : A -> bool) l : Forall (fun x => p x = false) l -> filter p l = [].
+Proof. induction 1 as [|x l Hx _ IH]; cbn [filter]; [reflexivity|]. rewrite Hx. exact IH. Qed.
+
+Lemma feed_known ms : forall mi dn,
+  dget cd_name dn mi <> None -> Forall (fun m => exists vn, about dn vn m) ms -> dget cd_name dn (feed mi ms) <> None.
+Proof.
+  induction ms as [|m ms IH]; intros mi dn Hk Ha; [exact Hk|]. inversion Ha as [|? ? [vn Hm] Hr]; subst. cbn [feed fold_left].
+  apply (IH _ dn); [|exact Hr]. exact (proj2 (apply_known mi m dn vn Hk Hm)).
+Qed.
+
+Theorem network_client_stays_in_sync s c e d o :
+  one_client s c (d_name d) -> cl_in_ctl c = [] -> cl_in_blob c = [] ->
+  find_dev s e = Some d -> e <> cl_ctl c -> e <> cl_blob c ->
+  dev_ok d -> op_typed d o -> net_synced (cl_mirror c) d ->
+  Forall (fun m => is_blob_msg m = false) (pubs (snd (step d o))) ->
+  exists c',
+    sy_cls (sstep s (SDrv e o)) = [c'] /\
+    net_synced (cl_mirror c') (fst (step d o)) /\ dev_ok (fst (step d o)) /\
+    find_dev (sstep s (SDrv e o)) e = Some (fst (step d o)) /\
+    one_client (sstep s (SDrv e o)) c' (d_name (fst (step d o))) /\ cl_in_ctl c' = [] /\ cl_in_blob c' = [].
+Proof.
+  intros O I1 I2 Fd He1 He2 D T (mi0 & S0 & Em & K0) Nb.
+  destruct (step_synced d o mi0 D S0 T) as (D1 & S1 & N1 & Ab).
+  assert (Kc : dget cd_name (d_name d) (cl_mirror c) <> None).
+  { rewrite Em. unfold nm. rewrite (dget_map cd_name nm_dev (fun _ => eq_refl)). destruct (dget cd_name (d_name d) mi0); [discriminate|contradiction]. }
+  destruct (driver_operation_is_delivered s c (d_name d) e d o O I1 I2 Kc Fd eq_refl He1 He2 Ab)
+    as (c' & Cls & Mir & J1 & J2 & Fd' & Sr & F1 & F2 & F3).
+  exists c'. split; [exact Cls|]. split; [|split; [exact D1|split; [exact Fd'|split; [|split; assumption]]]].
+  - exists (feed mi0 (pubs (snd (step d o)))). split; [exact S1|]. split.
+    + rewrite Mir, Em. unfold delivered_stream.
+      rewrite (filter_all (fun m => negb (is_blob_msg m))) by (eapply Forall_impl; [|exact Nb]; intros m Hm; cbn; now rewrite Hm).
+      rewrite (filter_none is_blob_msg _ Nb). cbn [map]. rewrite app_nil_r. unfold feed, wire. apply feed_norm.
+    + rewrite N1. apply feed_known; [exact K0|exact Ab].
+  - rewrite N1. destruct O as [A B C0 Dd E F]. constructor; rewrite ?Sr, ?F1, ?F2, ?F3; auto.
 Qed.
